@@ -118,9 +118,12 @@ theorem reset_restarts_incarnation (c : Ctx) :
   unfold reset
   simp
 
-/-- the bump policy used by renewable identities yields a different identity that wins the conflict -/
-theorem bump_renews_to_a_winner (i : Id) : ∃ n, renew .bump i = some n ∧ n ≠ i ∧ n.wins i = true ∧ n.addr = i.addr := by
-  refine ⟨⟨i.addr, i.gen + 1⟩, rfl, ?_, ?_, rfl⟩
+/-- the bump policy used by renewable identities yields a different identity that wins the conflict — as long as
+    the `u16` generation does not wrap (at 65535 it wraps to 0, which does not win: the instance goes Defunct) -/
+theorem bump_renews_to_a_winner (i : Id) (hg : i.gen < 65535) :
+    ∃ n, renew .bump i = some n ∧ n ≠ i ∧ n.wins i = true ∧ n.addr = i.addr := by
+  have hm : (i.gen + 1) % 65536 = i.gen + 1 := Nat.mod_eq_of_lt (by omega)
+  refine ⟨⟨i.addr, i.gen + 1⟩, by simp [renew, hm], ?_, ?_, rfl⟩
   · intro h; have := congrArg Id.gen h; simp at this
   · simp [Id.wins]
 
